@@ -681,7 +681,7 @@ fn rare_zero_key_run(p: &mut Prng, w: &mut World) {
     };
     let mut bad = None;
     let mut good = None;
-    for _ in 0..2500 {
+    for _ in 0..8000 {
         let rb = (BigUint::from_bytes_be(&p.bytes32()) % (&n - 1u32)) + 1u32;
         if key_byte(&rb) == 0 {
             bad = Some(rb);
